@@ -1,7 +1,84 @@
-(* C19 placeholder: theorems land with Proofs/ByteStoreProofs.v *)
-From Coq Require Import ZArith List.
-From V Require Import Result ByteStore.
+(* C19 -- interval byte storage and block views stay consistent.
+   Model: Model/ByteStore.v (byteinterval.py: constructor check, size / initialized_size setters, contents;
+   block.py: ByteBlock.address / contents / contains_offset / contains_address).  Proofs: Proofs/ByteStoreProofs.v. *)
+From Coq Require Import ZArith List Lia.
+From V Require Import Result ByteStore ByteStoreProofs.
 Import ListNotations.
+Open Scope Z_scope.
+
+(* initialized_size always equals the number of stored bytes *)
 Theorem C19_init_size_is_len : forall s, init_size s = Z.of_nat (length (bbytes s)).
-Proof. reflexivity. Qed.
+Proof. exact init_size_is_len. Qed.
+
+(* construction (and loading, which re-runs the constructor) rejects more stored bytes than the size ... *)
+Theorem C19_ctor_rejects : forall size init c,
+  (match size with Some x => x | None => zlen c end) < (match init with Some x => x | None => zlen c end) ->
+  ctor size init c = Err EValue.
+Proof. exact ctor_rejects. Qed.
+
+(* ... and what it accepts satisfies the invariant, with exactly the requested size and byte count *)
+Theorem C19_ctor_accepts : forall size init c s, ctor size init c = Ok s ->
+  0 <= (match init with Some x => x | None => zlen c end) ->
+  BInv s /\ bsize s = (match size with Some x => x | None => zlen c end)
+  /\ init_size s = (match init with Some x => x | None => zlen c end).
+Proof. exact ctor_accepts. Qed.
+
+(* assigning initialized_size pads with zero bytes or truncates *)
+Theorem C19_set_init_length : forall s v, 0 <= v -> init_size (set_init s v) = v /\ bsize (set_init s v) = bsize s.
+Proof. exact set_init_spec. Qed.
+Theorem C19_set_init_prefix : forall v l, 0 <= v ->
+  firstn (Z.to_nat (Z.min v (zlen l))) (resize v l) = firstn (Z.to_nat (Z.min v (zlen l))) l.
+Proof. exact resize_prefix. Qed.
+Theorem C19_set_init_padding : forall v l i, zlen l <= i < v -> nth (Z.to_nat i) (resize v l) 1 = 0.
+Proof. exact resize_padding. Qed.
+
+(* shrinking size below the stored byte count truncates the stored bytes *)
+Theorem C19_set_size : forall s v, 0 <= v -> bsize (set_size s v) = v /\
+  bbytes (set_size s v) = firstn (Z.to_nat (Z.min v (zlen (bbytes s)))) (bbytes s) /\
+  init_size (set_size s v) = Z.min v (init_size s).
+Proof. exact set_size_spec. Qed.
+
+(* so stored bytes never exceed size after ANY sequence of such assignments ... *)
+Theorem C19_bytes_le_size : forall ops s, BInv s -> BInv (brun s ops).
+Proof. exact brun_inv. Qed.
+
+(* ... and the interval can always be saved and loaded back (the reader re-runs the constructor on size + bytes) *)
+Theorem C19_saveable : forall ops s, BInv s -> reload (brun s ops) = Ok (brun s ops).
+Proof. exact brun_reload. Qed.
+
+(* block views *)
+Theorem C19_block_address : forall addr off,
+  block_address addr off = match addr with Some a => Some (a + off) | None => None end.
+Proof. exact block_address_spec. Qed.
+Theorem C19_block_contents : forall s off size, 0 <= off -> 0 <= size ->
+  block_contents s off size = firstn (Z.to_nat size) (skipn (Z.to_nat off) (bbytes s)) /\
+  zlen (block_contents s off size) = Z.max 0 (Z.min size (zlen (bbytes s) - off)) /\
+  forall i, 0 <= i < zlen (block_contents s off size) ->
+    nth (Z.to_nat i) (block_contents s off size) 0 = nth (Z.to_nat (off + i)) (bbytes s) 0.
+Proof. exact block_contents_spec. Qed.
+Theorem C19_contains_offset : forall off size o, contains_offset off size o = true <-> off <= o < off + size.
+Proof. exact contains_offset_spec. Qed.
+Theorem C19_contains_address : forall addr off size a,
+  contains_address addr off size a = true <-> exists ba, block_address addr off = Some ba /\ ba <= a < ba + size.
+Proof. exact contains_address_via_block_address. Qed.
+
+(* non-vacuity: shrink below the stored bytes, truncate, grow, pad *)
+Example C19_example :
+  BInv {| bsize := 8; bbytes := [1;2;3;4;5;6] |} /\
+  brun {| bsize := 8; bbytes := [1;2;3;4;5;6] |} [BSetSize 4; BSetInit 2; BSetSize 10; BSetInit 7]
+  = {| bsize := 10; bbytes := [1;2;0;0;0;0;0] |}.
+Proof. split; [unfold BInv, zlen; simpl; lia | vm_compute; reflexivity]. Qed.
+
 Print Assumptions C19_init_size_is_len.
+Print Assumptions C19_ctor_rejects.
+Print Assumptions C19_ctor_accepts.
+Print Assumptions C19_set_init_length.
+Print Assumptions C19_set_init_prefix.
+Print Assumptions C19_set_init_padding.
+Print Assumptions C19_set_size.
+Print Assumptions C19_bytes_le_size.
+Print Assumptions C19_saveable.
+Print Assumptions C19_block_address.
+Print Assumptions C19_block_contents.
+Print Assumptions C19_contains_offset.
+Print Assumptions C19_contains_address.
